@@ -118,12 +118,13 @@ claim("C13",
       "internal error (C13_never_internal), accepted => every consumer is total (keys present with the needed types), the built step list "
       "equals the document's, every schema priority string is understood with a Flux urgency, each mutation class of the property "
       "(deleted required key, empty string, unknown key, wrong type, duplicate variable/dependency/step, value/label length mismatch, "
-      "undefined or self dependency) is rejected with a diagnostic, monitor proved of the model. C13_stageable is partial (composition with "
-      "the Expand model not proved; accepted documents are staged for real by the harness). One known finding (duplicate YAML keys). Tie: "
+      "undefined or self dependency) is rejected with a diagnostic, monitor proved of the model, and C13_stageable: an accepted document "
+      "inside H8 whose workspace references name earlier nodes always stages in the Expand model (totality of the expansion model proved) "
+      "and satisfies C08's monitor. One known finding (duplicate YAML keys). Tie: "
       "schema and from_str regenerated; the schema interpreter validated against jsonschema; exhaustive single mutations + generated "
       "documents through the real front end compared with the model inside Coq.",
       "Coq proof (schema-interpreter soundness, totality of consumers) + in-Coq differential correspondence with the real loader/validator",
-      "DESIGN.md 5/C13, 10", "C13_stageable is partial.")
+      "DESIGN.md 5/C13, 10")
 claim("C17",
       "Coq theorems on the regenerated polling model for all graphs/configs/histories with dry_run on: the only adapter calls are script "
       "generations and cancel_jobs([]) (monitor family 17 silent on every dry trace: prop_ok 17 proved), nothing is ever in progress, every "
